@@ -260,7 +260,6 @@ type sendItem struct {
 	taken bool
 }
 
-
 var _ = fmt.Sprint
 
 func (e *Engine) chanOf(fr *frame, v Value) *Chan {
